@@ -185,6 +185,7 @@ func (e *dsExplorer) internLocal(n *dsNode, node int, hist []dsEv) *dsLocal {
 func (e *dsExplorer) local(id int32) *dsLocal { e.mtx.RLock(); defer e.mtx.RUnlock(); return e.locals[id] }
 
 func (e *dsExplorer) apply(n *dsNode, ev dsEv) (pub []int32) {
+	n.sigMark = len(n.signed)
 	switch ev.K {
 	case dsDeliver:
 		n.deliver(e.w.msg(int(ev.M)))
